@@ -360,6 +360,9 @@ Definition STR_Identity : str := [73;100;101;110;116;105;116;121].
 Definition OP_Identity : opid := ([], STR_Identity, []).
 Definition is_identity_op (op : opid) : bool := let '(d, n, _) := op in str_eqb d [] && str_eqb n STR_Identity.
 
+(* x is produced by a node of the graph that holds node k (input_value.producer().graph is node.graph) *)
+Definition produced_beside (m : model) (k x : vid) : bool :=
+  existsb (fun g => existsb (has_key k) (g_nodes g) && memN x (flat_map n_outs (g_nodes g))) (graphs_of m).
 Definition try_elim_identity (m : model) (k : vid) : model :=
   match get_node m k with
   | None => m
@@ -368,6 +371,7 @@ Definition try_elim_identity (m : model) (k : vid) : model :=
     match n_ins n, n_outs n with
     | [Some x], [y] =>
       if is_graph_output m y && (is_graph_input m x || is_initializer m x) then m
+      else if is_graph_output m y && negb (produced_beside m k x) then m      (* 0f568df: outer-scope input *)
       else remove_node k (replace_uses true y x m)
     | _, _ => m
     end
@@ -408,20 +412,9 @@ Definition tensor_payload_size (p : list Z) : Z :=
   | _ :: rank :: r => fold_left Z.mul (firstn (rk rank) r) 1%Z
   | _ => 0%Z
   end.
-Definition cse_value_eqb (ty : N) (p q : list Z) : bool :=
-  if N.eqb ty TY_FLOAT || N.eqb ty TY_FLOATS then list_eqb pyfloat_eqb p q
-  else if N.eqb ty TY_TENSOR then
-    match p, q with
-    | dt :: rank :: r, dt' :: rank' :: r' =>
-      let dims := firstn (rk rank) r in let dims' := firstn (rk rank') r' in
-      let data := skipn (rk rank) r in let data' := skipn (rk rank') r' in
-      Z.eqb dt dt' && list_eqb Z.eqb dims dims' &&
-      (if Z.eqb dt DT_STRING
-       then let '(w, b) := np_S_view data in let '(w', b') := np_S_view data' in Z.eqb w w' && list_eqb Z.eqb b b'
-       else list_eqb Z.eqb data data')
-    | _, _ => list_eqb Z.eqb p q
-    end
-  else list_eqb Z.eqb p q.
+(* af1d2e4: FLOAT/FLOATS are compared through float.hex() (bit pattern; every NaN prints "nan": the converter
+   canonicalises NaN payloads), string tensors through their exact byte strings: the key is the payload itself *)
+Definition cse_value_eqb (ty : N) (p q : list Z) : bool := list_eqb Z.eqb p q.
 Definition cse_attr_eqb (a b : str * attr) : bool :=
   str_eqb (fst a) (fst b) &&
   match snd a, snd b with
@@ -445,27 +438,26 @@ Definition cse_key_eqb (a b : node) : bool :=
    removal.  Returns the model and the fresh-id counter. *)
 Definition insert_before (k : vid) (nn : node) (ns : list node) : list node :=
   flat_map (fun n => if has_key k n then [nn; n] else [n]) ns.
-(* the output list is rewritten position by position while is_graph_output of later candidates is
-   evaluated on the CURRENT state: after outputs[idx] = w, w is a graph output *)
-Fixpoint fix_outputs_seq (m : model) (k : vid) (pairs : list (vid * vid)) (idx : nat) (n : nat) (fresh : N) : model * N :=
-  match n with
-  | O => (m, fresh)
-  | S n' =>
-    match nth_error (g_outs (m_main m)) idx with
-    | None => (m, fresh)
-    | Some o =>
+(* The output list of the main graph is rewritten position by position (af1d2e4: a value met again reuses its
+   replacement).  `done` = the already rewritten prefix (reversed), `todo` = the untouched suffix: is_graph_output of a
+   candidate is evaluated on the CURRENT list done ++ todo and on the other graphs.  Result: new outputs, the Identity
+   nodes to insert before the removed node, next fresh id. *)
+Definition other_graphs (m : model) : list graph := map snd (m_subs m) ++ map f_body (m_funcs m).
+Fixpoint alias_plan (m : model) (pairs aliases : list (vid * vid)) (done todo : list vid) (fresh : N)
+  : list vid * list node * N :=
+  match todo with
+  | [] => (rev done, [], fresh)
+  | o :: rest =>
+    match alookup aliases o with
+    | Some r => alias_plan m pairs aliases (r :: done) rest fresh
+    | None =>
       match alookup pairs o with
       | Some w =>
-        if is_graph_output m w || is_graph_input m w then
-          let idn := mkNode OP_Identity [] [Some w] [fresh] in
-          let g := m_main m in
-          let g' := mkGraph (g_ins g) (g_inits g) (insert_before k idn (g_nodes g)) (upd_nth idx (fun _ => fresh) (g_outs g)) in
-          fix_outputs_seq (mkModel g' (m_subs m) (m_funcs m)) k pairs (S idx) n' (fresh + 1)
-        else
-          let g := m_main m in
-          let g' := set_outs g (upd_nth idx (fun _ => w) (g_outs g)) in
-          fix_outputs_seq (mkModel g' (m_subs m) (m_funcs m)) k pairs (S idx) n' fresh
-      | None => fix_outputs_seq m k pairs (S idx) n' fresh
+        if memN w done || memN w todo || existsb (fun g => memN w (g_outs g)) (other_graphs m) || is_graph_input m w then
+          let '(outs, ids, fr) := alias_plan m pairs ((o, fresh) :: aliases) (fresh :: done) rest (fresh + 1) in
+          (outs, mkNode OP_Identity [] [Some w] [fresh] :: ids, fr)
+        else alias_plan m pairs ((o, w) :: aliases) (w :: done) rest fresh
+      | None => alias_plan m pairs aliases (o :: done) rest fresh
       end
     end
   end.
@@ -473,12 +465,14 @@ Fixpoint fix_outputs_seq (m : model) (k : vid) (pairs : list (vid * vid)) (idx :
 Definition cse_replace (m : model) (rem keep : node) (fresh : N) : model * N :=
   let pairs := combine (n_outs rem) (n_outs keep) in
   let k := node_key rem in
-  let '(m1, fr) :=
+  let '(outs, ids, fr) :=
       if existsb (is_graph_output m) (n_outs rem)
-      then fix_outputs_seq m k pairs 0 (length (g_outs (m_main m))) fresh
-      else (m, fresh) in
-  let m2 := fold_left (fun m vw => replace_uses false (fst vw) (snd vw) m) pairs m1 in
-  (remove_node k m2, fr).
+      then alias_plan m pairs [] [] (g_outs (m_main m)) fresh
+      else (g_outs (m_main m), [], fresh) in
+  let m2 := fold_left (fun m vw => replace_uses false (fst vw) (snd vw) m) pairs m in
+  let g := m_main m2 in
+  let g' := mkGraph (g_ins g) (g_inits g) (flat_map (fun n => if has_key k n then ids ++ [n] else [n]) (g_nodes g)) outs in
+  (remove_node k (mkModel g' (m_subs m2) (m_funcs m2)), fr).
 
 Fixpoint cse_loop (size_limit : Z) (keys : list vid) (seen : list vid) (m : model) (fresh : N) : model * N :=
   match keys with
